@@ -219,10 +219,10 @@ def isStr : PyId → Bool
 def addEdgesFrom (s : HG) (fmt : Fmt) (items : List EdgeItem) (attr : Attrs) : HG × Outcome :=
   match fmt, items with
   | .f1, it :: _ =>
-    -- format detection looks at the first edge: empty -> IndexError; first member a string but not
-    -- all members strings -> "Members cannot be specified as a string"
+    -- format detection looks at the first edge: first member a string but not all members strings
+    -- -> "Members cannot be specified as a string" (an empty first edge is an ordinary member list)
     match it.members with
-    | [] => (s, .err .other)
+    | [] => bulk (addEdgesItem fmt attr) s items
     | m0 :: _ =>
       if isStr m0 ∧ ¬ it.members.all isStr then (s, .err .lib)
       else bulk (addEdgesItem fmt attr) s items
